@@ -204,44 +204,42 @@ def sweep(tb):
     return cases, hist
 
 
-def random_tree(tb, rnd, kw, depth, budget):
+def random_tree(tb, rnd, kw, depth, budget, q):
+    """q = noise: probability of a junk child / an omitted required child / a repeated single child"""
     ty = tb.struct_for(kw)
     arg = rnd.choice([None, "", "a", "b", "some text", "x1"])
     subs = []
     if ty is None or depth <= 0:
-        if rnd.random() < 0.2:
+        if ty is not None:
+            return tb.minimal(kw, arg if arg is not None else "d")
+        if rnd.random() < 0.3:
             subs = [("any", "z", [])]
         return (kw, arg, subs)
     fields = tb.structs[ty]
     kids = [f["key"] for f in fields if f["kind"] in ("FSingle", "FMulti")]
     singles = [f["key"] for f in fields if f["kind"] == "FSingle"]
-    req = tb.required_keys(ty, kw)
-    want = []
-    for k in req:
-        if rnd.random() < 0.93:
-            want.append(k)
-    n = rnd.choice([0, 1, 1, 2, 3, 4, 6])
+    has_ext = any(f["kind"] == "FExt" for f in fields)
+    other = [f["key"] for f in fields if any(n != kw for n in f["reqkinds"])]
+    want = [k for k in tb.required_keys(ty, kw) if rnd.random() >= q]
+    n = rnd.choice([0, 1, 2, 3, 4, 6, 8])
     for _ in range(n):
         r = rnd.random()
-        if r < 0.70 and kids:
+        if r < q:
+            want.append(rnd.choice(PSEUDO + ["bogus", "a:b:c", "module", "submodule"] + sorted(tb.names)))
+        elif r < q + 0.15 and (has_ext or rnd.random() < q):
+            want.append(rnd.choice(["e:x", "e:y", "pfx:thing", ":", "a:", ":b"]))
+        elif kids:
             k = rnd.choice(kids)
-            if k in singles and k in want and rnd.random() < 0.85:
-                continue
+            if (k in singles and k in want) or k in other:
+                if rnd.random() >= q:
+                    continue
             want.append(k)
-        elif r < 0.85:
-            want.append(rnd.choice(["e:x", "e:y", "pfx:thing", ":", "a:"]))
-        elif r < 0.90:
-            want.append(rnd.choice(sorted(tb.names)))
-        elif r < 0.95:
-            want.append(rnd.choice(PSEUDO))
-        else:
-            want.append(rnd.choice(["bogus", "a:b:c", "module", "submodule"]))
     rnd.shuffle(want)
     for k in want:
-        if budget[0] <= 0:
-            break
+        if budget[0] <= 0 and k not in tb.required_keys(ty, kw):
+            continue
         budget[0] -= 1
-        subs.append(random_tree(tb, rnd, k, depth - 1, budget))
+        subs.append(random_tree(tb, rnd, k, depth - 1, budget, q))
     return (kw, arg, subs)
 
 
@@ -250,10 +248,12 @@ def randoms(tb, rnd, n):
     for i in range(n):
         forest = []
         ntop = rnd.choice([1, 1, 1, 1, 2, 3])
+        q = rnd.choice([0.0, 0.0, 0.01, 0.03, 0.1, 0.3])
         for j in range(ntop):
             r = rnd.random()
-            kw = "module" if r < 0.6 else "submodule" if r < 0.85 else rnd.choice(sorted(tb.names) + ["bogus", "x:y"])
-            t = random_tree(tb, rnd, kw, rnd.choice([1, 2, 3, 4, 5]), [rnd.choice([6, 15, 40])])
+            kw = "module" if r < 0.6 else "submodule" if r < 0.9 or q == 0.0 else \
+                rnd.choice(sorted(tb.names) + ["bogus", "x:y"])
+            t = random_tree(tb, rnd, kw, rnd.choice([1, 2, 3, 4, 5]), [rnd.choice([6, 15, 40, 80])], q)
             forest.append((t[0], "top%d" % j, t[2]))
         cases.append(case_line(forest))
     return cases
